@@ -5,6 +5,7 @@ A unit template (units/<U>.rs) is a Verus source file in which blocks of the for
 
     //@@ fn <id> = <file> :: <path element> :: <path element> ...
     //@@ safety C05 C16            properties served by the implicit obligations of this function
+    //@@ loop-end N                proof text placed at the end of the body of the N-th loop
     //@@ post TAG "text"           the function's postcondition comes from a library trait contract (vstd Ord::cmp + OrdSpecImpl ..):
     //@@                           a failed postcondition of this function is obligation <id>.TAG
     //@@ ret r                     name the return value `r` (Verus needs a name to write `ensures`)
@@ -143,6 +144,8 @@ REWRITES = {
         "`v.into_iter().filter_map(f)` (followed by .collect()) is the function vfilter_map(v, f) with the assumed std contract"),
     "filter_collect": (r"(\w+)\s*\.into_iter\(\)\s*\.filter\(", r"vitc::vfilter(\1, ",
         "`v.into_iter().filter(f)` (followed by .collect()) is the function vfilter(v, f) with the assumed std contract"),
+    "range_inclusive_count": (r"for _ in 1\.\.=(\w+) \{", r"for _i in 0..\1 {",
+        "`for _ in 1..=n` runs the body n times, as `for _i in 0..n` does (vstd specifies Range, not RangeInclusive)"),
     "str_to_string": (r"\b(s|str|word|text)\.to_string\(\)", r"vstr::to_string_of(\1)", "&str::to_string() is a String with the same text"),
     "pub_crate": (r"\bpub\(crate\)\s+", r"pub ", "visibility is irrelevant in a single file"),
     "deref_clone": (
@@ -238,7 +241,48 @@ def _rewrite_write_macros(text):
             elif mm and ln and re.match(r"^error:\{\w+\}$", body):
                 rep = "vio::error_line(&self.%s, &%s)" % (mm.group(1), holes[0])
             else:
-                raise ExtractError("write!: unsupported format %r" % fmt)
+                # general case: literal pieces and plain Display holes `{}` / `{name}`, written one after the other; the first
+                # failing piece ends the call with that error (what core::fmt::write does)
+                pieces = []
+                k = 0
+                lit_acc = ""
+                it = iter(rest)
+                ok = True
+                while k < len(body):
+                    if body.startswith("{{", k):
+                        lit_acc += "{"; k += 2
+                    elif body.startswith("}}", k):
+                        lit_acc += "}"; k += 2
+                    elif body[k] == "{":
+                        e = body.find("}", k)
+                        hole = body[k + 1:e] if e > 0 else None
+                        if hole is None or not re.match(r"^\w*$", hole):
+                            ok = False
+                            break
+                        if lit_acc:
+                            pieces.append(("lit", lit_acc)); lit_acc = ""
+                        try:
+                            pieces.append(("disp", hole if hole else next(it)))
+                        except StopIteration:
+                            ok = False
+                            break
+                        k = e + 1
+                    else:
+                        if body[k] == "\\" and k + 1 < len(body):
+                            lit_acc += body[k:k + 2]; k += 2
+                        else:
+                            lit_acc += body[k]; k += 1
+                if ln:
+                    lit_acc += "\\n"
+                if lit_acc:
+                    pieces.append(("lit", lit_acc))
+                if not ok or not pieces or mm:
+                    raise ExtractError("write!: unsupported format %r" % fmt)
+                def call(pc):
+                    return ("%s::lit(%s, \"%s\")" % (mod, tgt, pc[1])) if pc[0] == "lit" else ("%s::disp(%s, &%s)" % (mod, tgt, pc[1]))
+                rep = call(pieces[-1])
+                for pc in reversed(pieces[:-1]):
+                    rep = "{ let r__ = %s; if r__.is_err() { r__ } else { %s } }" % (call(pc), rep)
         out += text[i:a] + rep
         i = j
         n += 1
@@ -312,6 +356,7 @@ class FnSpec:
         self.from_anchor = self.to_anchor = self.must_precede = None
         self.prologue, self.epilogue = [], []
         self.loop_starts = {}
+        self.loop_ends = {}
         self.assume = False
         self.header_files = []
         self.sig_rewrites = []
@@ -415,6 +460,8 @@ def parse_template(path):
                         target = fs.after_loops.setdefault(int(d.split()[1]), [])
                     elif d.startswith("before-loop "):
                         target = fs.before_loops.setdefault(int(d.split()[1]), [])
+                    elif d.startswith("loop-end "):
+                        target = fs.loop_ends.setdefault(int(d.split()[1]), [])
                     elif d.startswith("loop-start "):
                         target = fs.loop_starts.setdefault(int(d.split()[1]), [])
                     elif d.startswith("insert-after "):
@@ -570,6 +617,13 @@ def _process_body(fs, body, src, b0, applied, out, tail_check=True):
         inserts.append((pos[0], "split", lines))
     for n, lines in fs.loop_starts.items():
         pos = [p_ + 1 for (i_, p_, _t, _ie, _e, _s) in loop_positions if i_ == n]
+        if not pos:
+            _hint_lost("lost anchor: %s has no loop #%d" % (fs.id, n))
+            continue
+        inserts.append((pos[0], "split", lines))
+    for n, lines in fs.loop_ends.items():
+        # just before the closing brace of the loop body (only meaningful when the body does not end in a tail expression)
+        pos = [e - 1 for (i_, _p, _t, _ie, e, _s) in loop_positions if i_ == n]
         if not pos:
             _hint_lost("lost anchor: %s has no loop #%d" % (fs.id, n))
             continue
